@@ -84,6 +84,12 @@ def instantiate(repl: str, env: dict):
     if not py.strip():
         return []
     tree = ast.parse(py)
+    for node in ast.walk(tree):
+        # a wildcard spelled inside a string / bytes literal of the template: the statement does not say whether that is a wildcard or text
+        if isinstance(node, ast.Constant) and isinstance(node.value, (str, bytes)):
+            text = node.value if isinstance(node.value, str) else node.value.decode("latin-1")
+            if any(name in text for name in names):
+                raise Undefined("wildcard inside a literal of the replacement template")
     tree = _Inst(names, env).visit(tree)
     return tree.body
 
